@@ -149,7 +149,18 @@ class C09(C.ProgramDiff):
         out = []
         for r in range(runs):
             data = hashlib.sha256(('%d/%d/eqneq' % (seed, r)).encode()).digest() * 6
-            case = c02.PROP.decode(Src(data))
+            src = Src(data)
+            case = c02.PROP.decode(src)
+            if r % 5 == 0:
+                # directed: a compound with >= 2 arguments against the same functor with ONE variable in every position -
+                # unifiable position by position, but not as a whole unless all arguments agree
+                name, n = src.pick([('g', 2), ('f', 2), ('h', 3)])
+                args = tuple(src.pick([('a', 'a'), ('a', 'b'), ('i', 1), c02.POOL[0], ('f', 'f', (('a', 'a'),)), ('f', 'f', (c02.POOL[1],))]) for _ in range(n))
+                v = c02.POOL[2 + src.n(2)]
+                case['t1'] = ('f', name, args)
+                case['t2'] = ('f', name, (v,) * n)
+                if src.n(2):
+                    case['t1'], case['t2'] = case['t2'], case['t1']
             case = {'stack': [[prolog_only(a), prolog_only(b)] for a, b in case['stack']], 't1': prolog_only(case['t1']),
                     't2': prolog_only(case['t2']), 'eqneq': True}
             o = self.decide(case)
